@@ -27,7 +27,7 @@ def run(ctx):
     ctx.model_check("MC_WordListCtor", "MC_WordListCtor.cfg", "NewWordList under EVERY visiting order of the map pass and every collect order: kept = KeptSpec, "
                     "uncap = UncapSpec, input untouched, notice is a count", workers=vlib.NCPU, constants={"MaxIn": 4 if quick else 5})
     scen = []
-    for ws in lists(rng, 60 if quick else 500):
+    for ws in lists(rng, 60 if quick else 2500):
         wl = dict(words=[wlfam.o(w) for w in ws], nolist=0, len=2, cap=rng.choice(wlfam.SCHEMES), sep="char", sepChar=wlfam.o("-"))
         scen.append(dict(kind="wl", wl=wl, maxTrials=0, failRateOne=0, mode="paths", paths=0, maxLeaves=0, tag="ctor-reps", reps=200 if quick else 3000))
         wl2 = dict(wl)
